@@ -375,13 +375,24 @@ Proof. apply decide_by. unfold guard_import, pre_import. okb. now rewrite (Z.eqb
 (* ======================================================================================== *)
 (* mode selection through the GENERATED tt_dimscheck (A-42) and its callers ttv / ttm         *)
 (* ======================================================================================== *)
-(* what the docstring demands of an explicit mode list *)
-Definition dimscheck_stmt : Prop :=
-  forall N M d, modes_ok N d = false -> tt_dimscheck N M (Some d) None = Err.
-Theorem dimscheck_refuted : ~ dimscheck_stmt.
-Proof. intros H. specialize (H 2 (Some 2) [1; 1] eq_refl). vm_compute in H. discriminate. Qed.
-Theorem dimscheck_accepts_out_of_range : tt_dimscheck 2 None (Some [5]) None = Ok ([5], None).
-Proof. reflexivity. Qed.
+(* what the docstring demands of an explicit mode list: every ill-formed list is rejected by the generated helper
+   (A-42 repaired: repeated and out-of-range modes are refused by tt_dimscheck itself) *)
+Lemma forallb_false_ex {A} (f : A -> bool) l : forallb f l = false -> exists x, In x l /\ f x = false.
+Proof.
+  induction l as [|x l IH]; cbn; [discriminate|]. destruct (f x) eqn:E.
+  - intros H. destruct (IH H) as (y & Hy & Fy). exists y. auto.
+  - intros _. exists x. auto.
+Qed.
+
+Theorem dimscheck_rejects_bad_modes N M d : modes_ok N d = false -> tt_dimscheck N M (Some d) None = Err.
+Proof.
+  unfold modes_ok. intros H. apply andb_false_iff in H as [H|H].
+  - apply forallb_false_ex in H as (x & Hx & Fx). unfold in_range in Fx.
+    apply andb_false_iff in Fx as [Fx|Fx].
+    + apply Z.leb_gt in Fx. eapply dimscheck_rejects_negative; eauto.
+    + apply Z.ltb_ge in Fx. eapply dimscheck_rejects_out_of_range; eauto.
+  - apply dimscheck_rejects_repeated. intros Hn. apply nodupb_spec in Hn. congruence.
+Qed.
 
 Lemma is_err_ttv_of_dimscheck s vlens dims excl :
   tt_dimscheck (ndim s) (Some (zlen vlens)) dims excl = Err -> guard_tensor_ttv s vlens dims excl = Err.
@@ -397,7 +408,7 @@ Proof. intros. eapply is_err_ttv_of_dimscheck, dimscheck_rejects_negative; eauto
 Theorem tensor_ttv_rejects_exclude_range s vlens e x :
   In x e -> ~ (0 <= x < ndim s) -> guard_tensor_ttv s vlens None (Some e) = Err.
 Proof. intros. eapply is_err_ttv_of_dimscheck, dimscheck_rejects_exclude_range; eauto. Qed.
-Theorem tensor_ttv_rejects_count s vlens d : (forall x, In x d -> 0 <= x) ->
+Theorem tensor_ttv_rejects_count s vlens d : (forall x, In x d -> 0 <= x < ndim s) -> NoDup d ->
   (zlen vlens > ndim s \/ (zlen vlens <> ndim s /\ zlen vlens <> zlen d)) -> guard_tensor_ttv s vlens (Some d) None = Err.
 Proof. intros. apply is_err_ttv_of_dimscheck, dimscheck_rejects_count; auto. Qed.
 
@@ -405,15 +416,11 @@ Theorem tensor_ttm_rejects_both s ms d e tr : guard_tensor_ttm s ms (Some d) (So
 Proof. apply is_err_ttm_of_dimscheck, dimscheck_rejects_both. Qed.
 Theorem tensor_ttm_rejects_negative s ms d x tr : In x d -> x < 0 -> guard_tensor_ttm s ms (Some d) None tr = Err.
 Proof. intros. eapply is_err_ttm_of_dimscheck, dimscheck_rejects_negative; eauto. Qed.
-Theorem tensor_ttm_rejects_count s ms d tr : (forall x, In x d -> 0 <= x) ->
+Theorem tensor_ttm_rejects_count s ms d tr : (forall x, In x d -> 0 <= x < ndim s) -> NoDup d ->
   (zlen ms > ndim s \/ (zlen ms <> ndim s /\ zlen ms <> zlen d)) -> guard_tensor_ttm s ms (Some d) None tr = Err.
 Proof. intros. apply is_err_ttm_of_dimscheck, dimscheck_rejects_count; auto. Qed.
 
-Definition tensor_ttv_stmt : Prop :=
-  forall s vlens dims excl, guard_tensor_ttv s vlens dims excl = decide (pre_tensor_ttv s vlens dims excl).
-Theorem tensor_ttv_refuted : ~ tensor_ttv_stmt.
-Proof. intros H. specialize (H [1] [1] (Some [0; 0]) None). vm_compute in H. discriminate. Qed.
-Definition tensor_ttm_stmt : Prop :=
-  forall s ms dims excl tr, guard_tensor_ttm s ms dims excl tr = decide (pre_tensor_ttm s ms dims excl tr).
-Theorem tensor_ttm_refuted : ~ tensor_ttm_stmt.
-Proof. intros H. specialize (H [2; 3] [(2, 2); (2, 2)] (Some [0; 0]) None false). vm_compute in H. discriminate. Qed.
+Theorem tensor_ttv_rejects_bad_modes s vlens d : modes_ok (ndim s) d = false -> guard_tensor_ttv s vlens (Some d) None = Err.
+Proof. intros. now apply is_err_ttv_of_dimscheck, dimscheck_rejects_bad_modes. Qed.
+Theorem tensor_ttm_rejects_bad_modes s ms d tr : modes_ok (ndim s) d = false -> guard_tensor_ttm s ms (Some d) None tr = Err.
+Proof. intros. now apply is_err_ttm_of_dimscheck, dimscheck_rejects_bad_modes. Qed.
